@@ -26,7 +26,8 @@ def meta(tier, seed):
                   "train+test == total for count and sum; min/avg/max analyses == independent re-implementation of the "
                   "documented rule (observed reward on a match, else training statistic, or the row's neighbourhood "
                   "statistic recomputed with integer distances for Radius / untied KNearest); evaluated counts sum to the "
-                  "number of rows evaluated; per arm sum(min) <= sum(avg) <= sum(max)",
+                  "number of rows evaluated; per arm sum(min) <= sum(avg) <= sum(max); the account of a finished "
+                  "simulation does not change when a further Simulator is created and run in the same process",
         "bounds": {"rows": [7, 9] if tier == "quick" else [7, 9, 10], "arms": "[1,2,3] with arm 3 never observed",
                    "test_size": [0.34, 0.5] if tier == "quick" else [0.25, 0.34, 0.5], "batch_size": "0..|test|",
                    "kinds": ["%s/%s" % k for k in KINDS]},
@@ -109,9 +110,25 @@ def neighbourhood_stats(cfg, arms, hist, q, raw):
     return out
 
 
+def account(sim):
+    """Everything a finished simulation reports (normalised), to detect later changes."""
+    name = "b0"
+    return ops.norm([list(sim.test_indices), list(sim.bandit_to_predictions[name]),
+                     {str(k): v for k, v in sim.arm_to_stats_train.items()},
+                     repr(sim.bandit_to_arm_to_stats_avg[name]), repr(sim.bandit_to_arm_to_stats_min[name]),
+                     repr(sim.bandit_to_arm_to_stats_max[name]), repr(sim.bandit_to_expectations[name]),
+                     repr(sim.bandit_to_arm_to_stats_neighborhoods[name]), repr(sim.bandit_to_neighborhood_size[name]),
+                     sorted(sim.bandit_to_predictions)])
+
+
+_LAST = {}
+
+
 def judge(cfg, dec, rew, X, params):
+    prev = _LAST.get("sim")
     try:
         sim, _orig = simrun.run_sim([cfg], dec, rew, X, params)
+        _LAST["sim"] = (sim, account(sim), params)
     except ValueError as e:
         if "Batch size" in str(e):
             return None
@@ -120,6 +137,12 @@ def judge(cfg, dec, rew, X, params):
         return ["Simulator raised %s: %s" % (type(e).__name__, str(e)[:200])]
     n, arms, name = len(dec), cfg["arms"], "b0"
     msgs = []
+    if prev is not None:
+        # the account of the previous, finished simulation must not move when another simulation runs
+        now = account(prev[0])
+        if now != prev[1]:
+            msgs.append("running this simulation changed what the previous, finished one (%r) reports: %r -> %r" % (
+                prev[2], prev[1], now))
     te = [int(i) for i in sim.test_indices]
     tr_expected, te_expected = simrun.split_indices(n, params, te)
     if len(set(te)) != len(te) or any(i < 0 or i >= n for i in te):
